@@ -862,6 +862,9 @@ type c20SubSpec struct {
 	From    string `json:"from,omitempty"` // sender filter
 	BC      string `json:"bc,omitempty"`   // chain filter
 	NilResp bool   `json:"nilresp,omitempty"`
+	// Decode (handler form): the handler decodes the payload with p2p.Unmarshal before it answers, as the engine's
+	// handlers do (handleGetBlock, handleGetChainStatus, ...); what it decodes must be what was sent
+	Decode bool `json:"decode,omitempty"`
 }
 
 // c20MsgKey: the identity of a dispatched message (payload id <-> checksum).
@@ -888,7 +891,17 @@ type c20DispProg struct {
 type c20Rec struct {
 	mu  sync.Mutex
 	got []*pb.XuperMessage
+	bad string // first decoding problem seen by a decoding handler
 }
+
+func (r *c20Rec) noteBad(format string, args ...interface{}) {
+	r.mu.Lock()
+	if r.bad == "" {
+		r.bad = fmt.Sprintf(format, args...)
+	}
+	r.mu.Unlock()
+}
+func (r *c20Rec) takeBad() string { r.mu.Lock(); b := r.bad; r.bad = ""; r.mu.Unlock(); return b }
 
 func (r *c20Rec) add(m *pb.XuperMessage) { r.mu.Lock(); r.got = append(r.got, m); r.mu.Unlock() }
 func (r *c20Rec) take() []*pb.XuperMessage {
@@ -926,9 +939,23 @@ func c20NewSub(sp c20SubSpec, chanCap int) *c20Sub {
 		s.sub = p2p.NewSubscriber(ctx, typ, s.ch, opts...)
 		return s
 	}
-	rec, nilResp := s.rec, sp.NilResp
+	rec, nilResp, decode := s.rec, sp.NilResp, sp.Decode
 	s.sub = p2p.NewSubscriber(ctx, typ, p2p.HandleFunc(func(_ xctx.XContext, m *pb.XuperMessage) (*pb.XuperMessage, error) {
 		rec.add(m)
+		if decode && len(m.GetData().GetMsgInfo()) > 0 {
+			got := &lpb.Transaction{}
+			if err := p2p.Unmarshal(m, got); err != nil {
+				rec.noteBad("a handler cannot decode the message it was handed: %v", err)
+			} else {
+				known := false
+				for id := 1; id <= 3; id++ {
+					known = known || proto.Equal(got, c20PayloadByID(id))
+				}
+				if !known {
+					rec.noteBad("a handler decoded a payload nobody sent (desc %q)", got.Desc)
+				}
+			}
+		}
 		if nilResp {
 			return nil, nil
 		}
@@ -1113,6 +1140,9 @@ func c20RunDisp(p *c20DispProg) *c20DispOut {
 			}
 			if cnt > 1 {
 				return nil, fmt.Sprintf("handler subscriber %d received the message %d times in one Dispatch", i, cnt)
+			}
+			if b := s.rec.takeBad(); b != "" {
+				return nil, fmt.Sprintf("handler subscriber %d: %s", i, b)
 			}
 			obs[i] = cnt == 1
 		}
@@ -1430,6 +1460,7 @@ func c20GenSub(rt *rapid.T, types []int32) c20SubSpec {
 		sp.Cap = rapid.IntRange(1, 3).Draw(rt, "cap")
 	} else {
 		sp.NilResp = rapid.IntRange(0, 7).Draw(rt, "nilresp") == 0
+		sp.Decode = rapid.Bool().Draw(rt, "decode")
 	}
 	return sp
 }
